@@ -123,6 +123,52 @@ theorem executions_per_task (sp : Spec) (rk : String → Nat) (hd : DetClass sp 
   have hq' := run_qinv sp orc rk hd.ok hd.starts evs (adm_of_plain sp orc _ init (plain_start orc evs hp))
   exact quiescent_row_counts sp orc rk hd.ok _ hq' hq.1 hq.2 n
 
+/-! ### the multiset reading: number of executions of a task -/
+
+/-- the single-activation class (`singleActGen` in Model/Sem.lean): (A) no task routes twice to the
+    same target, (B) a task that is not a join has at most one router, (C) a join has at most as many
+    routers as it needs (no partial join with a late branch) -/
+def SingleActivation (sp : Spec) (orc : String → Bool) : Prop := singleActWideB sp orc = true
+
+instance (sp : Spec) (orc : String → Bool) : Decidable (SingleActivation sp orc) := by
+  unfold SingleActivation; exact inferInstance
+
+/-- … and the STRICT class: moreover (C'') a join has at most one router or all its inbound tasks
+    are routers (it can not fail structurally while another router is still to come) -/
+def SingleActivationStrict (sp : Spec) (orc : String → Bool) : Prop := singleActB sp orc = true
+
+instance (sp : Spec) (orc : String → Bool) : Decidable (SingleActivationStrict sp orc) := by
+  unfold SingleActivationStrict; exact inferInstance
+
+/-- "Each task of a single-activation definition is executed exactly once" is FALSE of the code, also
+    for `join: all`: j (join all) has the inbound tasks p1, p2 (route to j) and q (its on-error clause,
+    the only route to j, does not fire).  History `eLate`: q and p1 complete, the join FAILS EARLY
+    ("not triggered"), its on-error task e runs; then the late branch p2 completes: `Task.defer`
+    re-opens the finished join, `_refresh_task_state` fails it again and e runs a SECOND time.
+    History `eFifo`: the join fails once, e runs once.  Both are plain and quiescent; workflow state
+    and the SET of rows agree (`outcome_schedule_independent`), the number of executions of e does
+    not.  Replayed on the real engine (corpus/C02/early_error_join_rerun.json, real = model after
+    every event): known finding `failed-join-reopened-by-late-branch`.  In the strict class no
+    violation was found (43 M worlds explored); the statement is not proved there. -/
+theorem executions_once_full_fails :
+    ¬ (∀ (sp : Spec) (rk : String → Nat), DetClass sp rk → ∀ (orc : String → Bool), SingleActivation sp orc →
+        ∀ (evs : List Event), Plain orc evs → Quiescent (run sp (.start :: evs)) →
+        ∀ n, sem sp orc n ≠ none → countL (run sp (.start :: evs)).tasks n = 1) := by
+  intro hall
+  have h := hall eSpec eRank ⟨e_ok, e_starts, e_known⟩ eOrc (by decide +kernel) eLate (by decide)
+    (by decide +kernel) "e" (by decide +kernel)
+  revert h
+  decide +kernel
+
+/-- the two histories spelled out: same workflow state, same set of rows, e executed twice / once;
+    the definition is in the wide but not in the strict single-activation class -/
+example : Quiescent (run eSpec (.start :: eFifo)) ∧ Plain eOrc eFifo ∧
+    countL (run eSpec (.start :: eLate)).tasks "e" = 2 ∧ countL (run eSpec (.start :: eFifo)).tasks "e" = 1 ∧
+    (run eSpec (.start :: eLate)).wf = (run eSpec (.start :: eFifo)).wf ∧
+    SingleActivation eSpec eOrc ∧ ¬ SingleActivationStrict eSpec eOrc := by
+  refine ⟨by decide +kernel, by decide, by decide +kernel, by decide +kernel, by decide +kernel,
+    by decide +kernel, by decide +kernel⟩
+
 /-! ### (c) schedule independence of the outcome -/
 
 /-- (c) "the final state, task states … are a function of the definition, the input and the action
